@@ -10,14 +10,16 @@
   R30f  `async { B }.await` -> `|| -> _ { B }()`: a block awaited on the spot is an immediately invoked closure (`return` and `?` leave the block
         in both); this is the shape the sync code has and that rule R16 lifts into a function
   R30g  the type `BoxFuture<'a, T>` (a boxed in-flight future, only stored and polled by the hand-written stream state machine) becomes the opaque
-        type `PendingFuture<T>` (prelude/asyncport.rs: ghost "which call is in flight"); `Box<(dyn X)>` -> `Box<dyn X>`; `async_std::io::copy`
-        is named `std::io::copy`
+        type `PendingFuture<T>` (prelude/asyncport.rs: ghost "which call is in flight"); `Box<(dyn X)>` -> `Box<dyn X>`; `async_std::io::{copy, Error, ErrorKind}`
+        are named `std::io::...` (Error and ErrorKind are re-exports of the std types)
   R30i  the hand-written stream state machine (`Stream::poll_next`): `Box::pin(async move { x.m().await })` -> `verif_future_m(x)` (a future that
         will perform the call `x.m()` when it is polled to completion); `f.poll_unpin(cx)` -> `f.verif_poll(world)` (either Pending, and then
         nothing has happened, or Ready with the outcome of the call under its proved contract); `s.poll_next_unpin(cx)` -> `verif_poll_stream(&mut s)`
         (Pending, or Ready(next item)); the receiver `self: Pin<&mut Self>` -> `&mut self`, `self.get_mut()` -> `self`, the parameter
         `cx: &mut Context<'_>` is dropped (wakers are scheduling, not behaviour)
   R30h  a `println!(..);` statement is dropped (the port's read_dir prints every entry to stdout; stdout is not part of any property)
+  R30j  an async lock acquisition `h.read().await` / `h.write().await` (async_std RwLock) reads `h.read().unwrap()` / `h.write().unwrap()`, and
+        `futures::executor::block_on(h.write())` likewise: this is the shape rule R4 (lock cell store-passing) knows; the async lock cannot be poisoned
   R30e  `let mut s = E; while let Some(x) = s.next() { B }` -> `for x in E { B }` when `s` occurs neither in B nor later in the enclosing
         block: this is the definition of `for` (repeated `next()` until `None`), and it lets the sync loop invariants speak about the port's loop
 Nothing else changes. What this drops is stated in DESIGN section 3 (R30) and in the evidence (trusted base: "await points are transparent").
@@ -35,7 +37,7 @@ RENAME = {
 def erase(src):
     toks = lex(src)
     out = []
-    counts = {'R30a': 0, 'R30b': 0, 'R30c': 0, 'R30d': 0, 'R30e': 0, 'R30f': 0, 'R30g': 0, 'R30h': 0, 'R30i': 0}
+    counts = {'R30a': 0, 'R30b': 0, 'R30c': 0, 'R30d': 0, 'R30e': 0, 'R30f': 0, 'R30g': 0, 'R30h': 0, 'R30i': 0, 'R30j': 0}
     pos = 0
     i = 0
     n = len(toks)
@@ -73,6 +75,22 @@ def erase(src):
             out.append('()')
             pos = toks[i + 1].end
             i += 2
+            continue
+        if t.text == '.' and i + 1 < n and toks[i + 1].text == 'await' and i >= 4 and toks[i - 1].text == ')' and toks[i - 2].text == '(' \
+                and toks[i - 3].text in ('read', 'write') and toks[i - 4].text == '.' and toks[i - 5].text in ('handle', 'fs'):
+            emit_gap(t.start)
+            out.append('.unwrap()')
+            pos = toks[i + 1].end
+            counts['R30j'] += 1
+            i += 2
+            continue
+        if t.text == 'futures' and i + 6 < n and [x.text for x in toks[i + 1:i + 7]] == ['::', 'executor', '::', 'block_on', '(', 'self']:
+            c = match_close(toks, i + 5)
+            emit_gap(t.start)
+            out.append(src[toks[i + 6].start:toks[c].start] + '.unwrap()')
+            pos = toks[c].end
+            counts['R30j'] += 1
+            i = c + 1
             continue
         if t.text == '.' and i + 1 < n and toks[i + 1].text == 'await':
             skip(i, i + 1)
@@ -138,7 +156,7 @@ def erase(src):
         if t.text == 'self' and i + 8 < n and [x.text for x in toks[i + 1:i + 8]] == [':', 'Pin', '<', '&', 'mut', 'Self', '>']:
             # `self: Pin<&mut Self>, cx: &mut Context<'_>` -> `&mut self`
             j = i + 8
-            if [x.text for x in toks[j:j + 5]] == [',', 'cx', ':', '&', 'mut'] and toks[j + 5].text == 'Context':
+            if [x.text for x in toks[j:j + 5]] in ([',', 'cx', ':', '&', 'mut'], [',', '_cx', ':', '&', 'mut']) and toks[j + 5].text == 'Context':
                 k = j + 6
                 if toks[k].text == '<':
                     while toks[k].text != '>':
@@ -157,7 +175,7 @@ def erase(src):
             counts['R30i'] += 1
             i += 5
             continue
-        if t.text == 'async_std' and i + 4 < n and [x.text for x in toks[i + 1:i + 5]] == ['::', 'io', '::', 'copy']:
+        if t.text == 'async_std' and i + 4 < n and [x.text for x in toks[i + 1:i + 4]] == ['::', 'io', '::'] and toks[i + 4].text in ('copy', 'Error', 'ErrorKind'):
             emit_gap(t.start)
             out.append('std')
             pos = t.end
